@@ -122,6 +122,10 @@ class Renderer(object):
             tail = ""
             if self.layout and self.rng.random() < 0.15:
                 tail = self.rng.choice(["  # end", " .", "yaml", '"'])        # text behind the closing delimiter is tolerated
+            elif not self.layout:
+                import zlib
+                if zlib.crc32(st["doc"].encode("utf-8") + st["text"].encode("utf-8")) % 4 == 0:
+                    tail = ("  # end", " .", "yaml")[len(st["text"]) % 3]     # (deterministic: no generator state is used here)
             self.raw(cind + q + tail)
         if st.get("table") is not None:
             self.table(st["table"], key + ("table",), indent + 2)
